@@ -124,6 +124,9 @@ class FakeWriter:
         self.conn.client_close()
 
     async def wait_closed(self):
+        lat = self.conn.net.close_latency
+        if lat is not None:
+            await asyncio.sleep(lat)          # the transport takes this long to report the connection closed
         exc = self.conn.wait_closed_exc
         if exc is not None:
             self.conn.wait_closed_exc = None
@@ -216,6 +219,7 @@ class FakeNet:
         self.on_client_close = None
         self.reader_factory = None   # (loop, connection index) -> reader object
         self._saved = None
+        self.close_latency = None   # None: wait_closed() returns at once; a number: it takes that long
         self.frozen = False         # set by harnesses after shutdown: any activity is recorded as late
         self.late = []
         self.inflight_opens = []    # connections whose attempt predates the freeze but which opened after it
